@@ -38,10 +38,10 @@ Proof.
   - assert (HPI : x <= PI) by (pose proof PI2_3_2; lra).
     destruct (SIN x Hx HPI) as [L _]. eapply Rle_trans; [|exact L].
     unfold sin_lb, sin_approx, sin_term. cbn [sum_f_R0 Nat.mul Nat.add fact pow INR].
-    replace (INR (fact (2 * 0 + 1))) with 1 by (cbn; lra).
-    replace (INR (fact (2 * 1 + 1))) with 6 by (cbn; lra).
-    replace (INR (fact (2 * 2 + 1))) with 120 by (cbn; lra).
-    replace (INR (fact (2 * 3 + 1))) with 5040 by (cbn; lra).
+    replace (INR (fact (2 * 0 + 1))) with 1 by (rewrite INR_IZR_INZ; apply f_equal; vm_compute; reflexivity).
+    replace (INR (fact (2 * 1 + 1))) with 6 by (rewrite INR_IZR_INZ; apply f_equal; vm_compute; reflexivity).
+    replace (INR (fact (2 * 2 + 1))) with 120 by (rewrite INR_IZR_INZ; apply f_equal; vm_compute; reflexivity).
+    replace (INR (fact (2 * 3 + 1))) with 5040 by (rewrite INR_IZR_INZ; apply f_equal; vm_compute; reflexivity).
     cbn [Nat.mul Nat.add pow].
     assert (Hx2 : 0 <= x * x) by nra. assert (Hx2b : x * x <= 9) by nra.
     assert (Hx5 : 0 <= x * x * x * x * x) by (repeat apply Rmult_le_pos; assumption).
